@@ -2,6 +2,7 @@ import AlgopyVerif.Model.Series
 import AlgopyVerif.Model.NdArray
 import AlgopyVerif.Model.Utpm
 import AlgopyVerif.Model.QI
+import AlgopyVerif.Model.Dtype
 import Lean.Data.Json
 /-!
 # Request dispatch of the model driver (JSON codec + operation table)
@@ -183,7 +184,30 @@ def handleK (j : Json) : Except String Json := do
 
 end
 
+def parseDT (s : String) : Except String DT :=
+  match s with
+  | "i64" => pure .i64 | "f64" => pure .f64 | "c128" => pure .c128
+  | _ => throw s!"bad dtype {s}"
+
+def showDT : DT → String
+  | .i64 => "i64" | .f64 => "f64" | .c128 => "c128"
+
+/-- `{"op":"dtype","aop":"add","self":"f64","kind":"pyint"|"pyfloat"|"pycomplex"|"utpm"|"npscalar"|"ndarray","dt":"f64","refl":false}` -/
+def handleDtype (j : Json) : Except String Json := do
+  let aop ← match (← j.getObjValAs? String "aop") with
+    | "add" => pure AOp.add | "sub" => pure AOp.sub | "mul" => pure AOp.mul | "div" => pure AOp.div
+    | s => throw s!"bad aop {s}"
+  let self ← parseDT (← j.getObjValAs? String "self")
+  let dt ← parseDT ((j.getObjValAs? String "dt").toOption.getD "f64")
+  let kind ← match (← j.getObjValAs? String "kind") with
+    | "pyint" => pure OKind.pyint | "pyfloat" => pure OKind.pyfloat | "pycomplex" => pure OKind.pycomplex
+    | "utpm" => pure (OKind.utpm dt) | "npscalar" => pure (OKind.npscalar dt) | "ndarray" => pure (OKind.ndarray dt)
+    | s => throw s!"bad kind {s}"
+  let refl := (j.getObjValAs? Bool "refl").toOption.getD false
+  pure (Json.mkObj [("dt", Json.str (showDT (resultDT aop self kind refl)))])
+
 def handle (j : Json) : Except String Json := do
+  if (j.getObjValAs? String "op").toOption == some "dtype" then return (← handleDtype j)
   let f := (j.getObjValAs? String "f").toOption.getD "Q"
   if f = "QI" then handleK (K := QI) j else handleK (K := Rat) j
 
